@@ -596,3 +596,171 @@ func checkPrintFlushesHeredocs(p *Prog, r *Result, rule string) int {
 	}
 	return n
 }
+
+// R01k: the parser and the printer agree on where the body of a pending here-document goes when the rest of its line
+// opens a construct that spans lines. The parser "buries" the pending list (preNested) while it reads the statements
+// of a command or process substitution — their body comes after the line that closes the substitution — and un-buries
+// it for a subshell and a case item, where, as in Bash, the body follows the first newline inside. The printer writes
+// pending bodies at the next newline it emits. So for every node type whose statement list the parser reads buried,
+// the printer sets its pending list aside (stores nil, restores afterwards) around the nested statements, and for the
+// others it does not.
+func checkHeredocBuryingAgrees(p *Prog, r *Result, rule string) int {
+	pkg := p.Pkg("syntax")
+	info := pkg.TypesInfo
+	pre := lookupFunc(pkg, "Parser.preNested")
+	nested := lookupFunc(pkg, "Printer.nestedStmts")
+	if pre == nil || nested == nil {
+		r.Undecided(rule, "syntax#Parser.preNested / Printer.nestedStmts", token.NoPos, "anchors not found")
+		return 0
+	}
+	// parser: node type -> buried?
+	type site struct {
+		buried bool
+		where  string
+	}
+	parser := map[string][]site{}
+	for _, fd := range p.AllFuncDecls("syntax") {
+		if fd.Body == nil || recvTypeName(fd) != "Parser" {
+			continue
+		}
+		ast.Inspect(fd.Body, func(m ast.Node) bool {
+			var list []ast.Stmt
+			switch b := m.(type) {
+			case *ast.BlockStmt:
+				list = b.List
+			case *ast.CaseClause:
+				list = b.Body
+			default:
+				return true
+			}
+			for i, st := range list {
+				as, ok := st.(*ast.AssignStmt)
+				if !ok || len(as.Rhs) != 1 {
+					continue
+				}
+				c, ok := ast.Unparen(as.Rhs[0]).(*ast.CallExpr)
+				if !ok || calleeOf(info, c) != pre || len(as.Lhs) != 1 {
+					continue
+				}
+				saved := exprString(as.Lhs[0])
+				buried := true
+				for _, st2 := range list[i+1:] {
+					// p.postNested(saved) ends the region
+					if es, ok := st2.(*ast.ExprStmt); ok {
+						if c2, ok := es.X.(*ast.CallExpr); ok && len(c2.Args) == 1 && exprString(c2.Args[0]) == saved {
+							break
+						}
+					}
+					if a2, ok := st2.(*ast.AssignStmt); ok && len(a2.Lhs) == 1 && len(a2.Rhs) == 1 {
+						if exprString(a2.Lhs[0]) == "p.buriedHdocs" && exprString(a2.Rhs[0]) == saved+".buriedHdocs" {
+							buried = false
+						}
+						continue
+					}
+					// X.Stmts, X.Last = p.stmtList(...) / p.followStmts(...)
+					if a2, ok := st2.(*ast.AssignStmt); ok && len(a2.Lhs) == 2 {
+						if se, ok := ast.Unparen(a2.Lhs[0]).(*ast.SelectorExpr); ok && se.Sel.Name == "Stmts" {
+							if nt := namedOf(derefType(info.TypeOf(se.X))); nt != nil {
+								parser[nt.Obj().Name()] = append(parser[nt.Obj().Name()], site{buried, p.Position(a2.Pos())})
+							}
+						}
+					}
+				}
+			}
+			return true
+		})
+	}
+	if len(parser) < 3 {
+		r.Undecided(rule, "syntax.(Parser)#statement lists read in a nested state", token.NoPos, fmt.Sprintf("only %d node types found whose statements are read between preNested and postNested", len(parser)))
+		return 0
+	}
+	n := 0
+	for _, fd := range p.AllFuncDecls("syntax") {
+		if fd.Body == nil || recvTypeName(fd) != "Printer" {
+			continue
+		}
+		var g *FGraph
+		seen := map[string]int{}
+		inspectNoLit(fd.Body, func(m ast.Node) bool {
+			c, ok := m.(*ast.CallExpr)
+			if !ok || calleeOf(info, c) != nested || len(c.Args) == 0 {
+				return true
+			}
+			se, ok := ast.Unparen(c.Args[0]).(*ast.SelectorExpr)
+			if !ok {
+				return true
+			}
+			nt := namedOf(derefType(info.TypeOf(se.X)))
+			if nt == nil {
+				return true
+			}
+			sites, known := parser[nt.Obj().Name()]
+			if !known {
+				return true
+			}
+			n++
+			key := fmt.Sprintf("%s#statements of %s: pending here-documents set aside exactly where the parser buries them", funcKey("syntax", fd), nt.Obj().Name())
+			seen[key]++
+			if seen[key] > 1 {
+				key += fmt.Sprintf("#%d", seen[key])
+			}
+			buried := sites[0].buried
+			for _, s := range sites {
+				if s.buried != buried {
+					r.Undecided(rule, key, c.Pos(), "the parser reads the statements of this node type buried at one place and not at another")
+					return true
+				}
+			}
+			if g == nil {
+				g = NewFGraph(info, fd.Body, nil)
+			}
+			blk := blockContaining(g, c)
+			aside := false
+			isAside := func(q ast.Node) bool {
+				as, ok := q.(*ast.AssignStmt)
+				if !ok || len(as.Lhs) != len(as.Rhs) {
+					return false
+				}
+				for i, l := range as.Lhs {
+					if fv := selectorField(info, l); fv != nil && fv.Name() == "pendingHdocs" && isNilIdent(info, as.Rhs[i]) {
+						return true
+					}
+				}
+				return false
+			}
+			if blk != nil {
+				for _, nd := range blk.Nodes {
+					if nd.End() <= c.Pos() && isAside(nd) {
+						aside = true
+					}
+				}
+			}
+			if blk != nil && !aside {
+				aside, _ = g.MustPass(g.Entry, -1, blk, func(q ast.Node) bool {
+					as, ok := q.(*ast.AssignStmt)
+					if !ok || len(as.Lhs) != len(as.Rhs) {
+						return false
+					}
+					for i, l := range as.Lhs {
+						if fv := selectorField(info, l); fv != nil && fv.Name() == "pendingHdocs" && isNilIdent(info, as.Rhs[i]) {
+							return true
+						}
+					}
+					return false
+				}, nil)
+			}
+			switch {
+			case buried && !aside:
+				r.Bad(rule, key, c.Pos(), fmt.Sprintf("the parser reads the statements of a %s with the pending here-documents buried (%s): their body follows the line that closes it; the printer writes them at the first newline inside, so `cat <<A | foo $(bar; baz)` is printed with the body of A right after `$(` — unclosed for this parser and for Bash", nt.Obj().Name(), sites[0].where))
+			case !buried && aside:
+				r.Bad(rule, key, c.Pos(), fmt.Sprintf("the printer sets the pending here-documents aside around the statements of a %s, but the parser (%s) reads their body at the first newline inside: the body is printed where it is not read", nt.Obj().Name(), sites[0].where))
+			case buried:
+				r.OK(rule, key, c.Pos(), "buried by the parser, set aside by the printer")
+			default:
+				r.OK(rule, key, c.Pos(), "read at the first newline inside by the parser, written there by the printer")
+			}
+			return true
+		})
+	}
+	return n
+}
